@@ -207,17 +207,18 @@ def excluded(m: LifeModel, op: dict) -> T.Optional[str]:
         proj, name = op['proj'], op['name']
         key = name if proj == 'top' else SP + ':' + name
         cur = m.file[proj].get(name)
+        other = SP if proj == 'top' else 'top'
         if k == 'add':
             if cur is not None:
                 return X_STATE
-            if name in YIELD_PAIR_NAMES:
-                return X_PAIR
+            if name in YIELD_PAIR_NAMES and name in m.file[other]:
+                return X_PAIR         # the edit would create a pair
             return None
         if cur is None:
             return X_STATE
         if k == 'remove':
-            if name in YIELD_PAIR_NAMES:
-                return X_PAIR
+            if name in YIELD_PAIR_NAMES and name in m.file[other]:
+                return X_PAIR         # the edit would break up a pair
             if key in m.recorded:
                 return X_D1
             return None
@@ -748,10 +749,11 @@ def _strategies() -> T.Any:
     def init_decls(draw: T.Any) -> dict:
         top: T.Dict[str, dict] = {}
         sp: T.Dict[str, dict] = {}
-        top['s1'] = decl_of(draw, 'string')
         sp['s1'] = decl_of(draw, 'string')
-        if chance(draw, 1, 4):
-            sp['s1']['yield'] = True
+        if not chance(draw, 1, 4):
+            top['s1'] = decl_of(draw, 'string')
+            if chance(draw, 1, 4):
+                sp['s1']['yield'] = True
         for n, t in (('b1', 'boolean'), ('i1', 'integer'), ('c1', 'combo'), ('a1', 'array'), ('f1', 'feature')):
             if not chance(draw, 1, 4):
                 top[n] = decl_of(draw, t)
@@ -987,6 +989,17 @@ def _strategies() -> T.Any:
                         push({'op': 'configure', 'D': [[k, R.to_cmdline(other)]]})
                     push({'op': 'configure', 'D': [[k, R.to_cmdline(gv)]]})
                     push({'op': 'introspect'})
+        if m.state == 'configured' and chance(draw, 1, 6):
+            # scripted tail 3: EVERY option of one project's option file is removed in one edit (the file is left without
+            # any option() call); at the next command all of them must vanish
+            proj = draw(st.sampled_from([SP, SP, 'top']))
+            other_ = SP if proj == 'top' else 'top'
+            if any(n_ in m.file[other_] for n_ in m.file[proj] if n_ in YIELD_PAIR_NAMES):
+                proj = other_ if not any(n_ in m.file[proj] for n_ in m.file[other_] if n_ in YIELD_PAIR_NAMES) else proj
+            for n_ in sorted(m.file[proj]):
+                push({'op': 'edit', 'proj': proj, 'kind': 'remove', 'name': n_, 'decl': None})
+            push({'op': draw(st.sampled_from(['configure', 'reconfigure'])), 'D': [['warning_level', draw(st.sampled_from(['0', '2', '3']))]]})
+            push({'op': 'introspect'})
         return {'init': init, 'ops': ops, 'strict': True}
 
     return histories()
@@ -1275,7 +1288,58 @@ def io_fault_family(ctx: Ctx) -> None:
                         sample={'command': job[0], 'fault_at_mutation': job[2], 'result': res['ok']})
 
 
+# ---------------------------------------------------------------------------
+# values that first came from a machine file, were then changed by the user, and must survive a reconfigure
+# (Ninja backend through the fake ninja, so that a backend option exists as well)
+
+def machine_file_scenario(ctx: Ctx) -> None:
+    from harness import mesondrv as M
+    root = os.path.join(ctx.scratch, 'mfile')
+    src, bld = os.path.join(root, 'src'), os.path.join(root, 'bld')
+    M.write_tree(src, {'meson.build': "project('mf', default_options: ['warning_level=1'])\nmessage('o=' + get_option('o'))\n",
+                       'meson.options': "option('o', type: 'string', value: 'dflt')\noption('n', type: 'integer', value: 3, min: 0, max: 100)\n"})
+    M.write_tree(root, {'native.ini': "[built-in options]\nbackend_max_links = 2\nwarning_level = '2'\nwerror = true\n\n[project options]\no = 'fromnative'\nn = 7\n"})
+
+    def values() -> T.Dict[str, T.Any]:
+        r = M.run_sub(['introspect', '--buildoptions', bld], cwd=root)
+        if r.rc != 0:
+            raise HarnessError(f'machine file scenario: introspect failed: {r!r}')
+        want = ('backend_max_links', 'warning_level', 'werror', 'o', 'n')
+        return {e['name']: e['value'] for e in json.loads(r.out) if e['name'] in want}
+
+    steps = [
+        (['setup', '--native-file', os.path.join(root, 'native.ini'), bld, src],
+         {'backend_max_links': 2, 'warning_level': '2', 'werror': True, 'o': 'fromnative', 'n': 7}, 'the machine file beats default_options / declared defaults'),
+        (['configure', bld, '-Dbackend_max_links=8', '-Dwarning_level=3', '-Do=cfg'],
+         {'backend_max_links': 8, 'warning_level': '3', 'werror': True, 'o': 'cfg', 'n': 7}, 'the user changed three of them'),
+        (['setup', '--reconfigure', bld, src],
+         {'backend_max_links': 8, 'warning_level': '3', 'werror': True, 'o': 'cfg', 'n': 7}, 'a reconfigure keeps the last value the user gave (and the machine-file value of the untouched ones)'),
+        (['configure', bld, '-Dn=42', '-Dwerror=false'],
+         {'backend_max_links': 8, 'warning_level': '3', 'werror': False, 'o': 'cfg', 'n': 42}, 'the user changed the other two'),
+        (['setup', '--reconfigure', bld, src, '-Do=again'],
+         {'backend_max_links': 8, 'warning_level': '3', 'werror': False, 'o': 'again', 'n': 42}, 'reconfigure with one more -D'),
+    ]
+    hist = []
+    for argv, want, why in steps:
+        shown = ' '.join('B' if a == bld else 'S' if a == src else os.path.basename(a) if a.endswith('native.ini') else a for a in argv)
+        hist.append(shown)
+        r = M.run_sub(argv, cwd=root)
+        case = {'machine_file_scenario': True, 'upto': len(hist)}
+        ctx.ev.case(case, nontrivial=True, cls='machine-file-history', sample={'history': list(hist), 'expect': want})
+        if r.rc != 0:
+            ctx.fail(Failure('machine-file-history/command-fails', case, f'`meson {shown}` failed (exit {r.rc}) after {hist[:-1]}:\n{r.text[-1200:]}'))
+            break
+        got = values()
+        bad = {k: (got.get(k), v) for k, v in want.items() if got.get(k) != v}
+        if bad:
+            ctx.fail(Failure('machine-file-history/value:' + '+'.join(sorted(bad)), case,
+                             f'after {hist}: ' + ', '.join(f'{k} = {g!r} (expected {w!r})' for k, (g, w) in sorted(bad.items())) + f' - {why}'))
+            break
+    shutil.rmtree(root, ignore_errors=True)
+
+
 def run(ctx: Ctx) -> None:
+    machine_file_scenario(ctx)
     io_fault_family(ctx)
     _run_fixed_cases(ctx, PROBES)
     for _, case in PROBES:
@@ -1287,6 +1351,10 @@ def run(ctx: Ctx) -> None:
 
 
 def replay(ctx: Ctx, case: T.Any, doc: dict) -> T.Optional[Failure]:
+    if isinstance(case, dict) and case.get('machine_file_scenario'):
+        c2 = Ctx(ctx.prop, ctx.tier, ctx.seed)
+        machine_file_scenario(c2)
+        return next(iter(c2.failures.values()), None)
     if isinstance(case, dict) and case.get('io_fault'):
         res = _io_fault_worker((case['cmd'], os.path.join(ctx.scratch, 'iof-replay'), case['k'], os.path.join(ctx.scratch, 'pyc')))
         return Failure.from_json(res) if res and 'sig' in res else None
